@@ -8,6 +8,13 @@ from ._intrinsic import _intrinsic
 from cohdl.utility import Span
 
 
+
+def _truncdiv_int(lhs: int, rhs: int) -> int:
+    # integer division truncated towards zero
+    # (float division is not exact for wide operands)
+    quotient = abs(lhs) // abs(rhs)
+    return quotient if (lhs < 0) == (rhs < 0) else -quotient
+
 class Signed(BitVector):
     _is_signed = True
     _SubTypes = {}
@@ -288,7 +295,7 @@ class Signed(BitVector):
 
         if rhs == 0:
             return Signed[result_width]()
-        return Signed[result_width](int(lhs / rhs))
+        return Signed[result_width](_truncdiv_int(lhs, rhs))
 
     @_intrinsic
     def _cohdl_rtruncdiv_(self, lhs: Signed) -> Signed:
@@ -305,7 +312,7 @@ class Signed(BitVector):
 
         if rhs == 0:
             return Signed[result_width]()
-        return Signed[result_width](int(lhs / rhs))
+        return Signed[result_width](_truncdiv_int(lhs, rhs))
 
     @_intrinsic
     def __mod__(self, rhs: Signed) -> Signed:
@@ -363,7 +370,7 @@ class Signed(BitVector):
         if rhs == 0:
             return Signed[result_width]()
 
-        return Signed[result_width](lhs - rhs * int(lhs / rhs))
+        return Signed[result_width](lhs - rhs * _truncdiv_int(lhs, rhs))
 
     @_intrinsic
     def _cohdl_rrem_(self, lhs: Signed) -> Signed:
@@ -383,7 +390,7 @@ class Signed(BitVector):
         if rhs == 0:
             return Signed[result_width]()
 
-        return Signed[result_width](lhs - rhs * int(lhs / rhs))
+        return Signed[result_width](lhs - rhs * _truncdiv_int(lhs, rhs))
 
     @_intrinsic
     def __lshift__(self, rhs) -> Signed:
